@@ -363,6 +363,104 @@ def work_items(tier):
     return work
 
 
+WRITTEN_SRC = {
+    # how the annotations are WRITTEN; all names resolve from the defining module's globals
+    "objects": "def f(x: Vec, y: Optional[Vec] = None, z: Optional[Tuple[Vec, Mat]] = None) -> Vec:\n    return _RET[0]\n",
+    "future-strings": "from __future__ import annotations\ndef f(x: Vec, y: Optional[Vec] = None, z: Optional[Tuple[Vec, Mat]] = None) -> Vec:\n    return _RET[0]\n",
+    "all-strings": "def f(x: 'Vec', y: 'Optional[Vec]' = None, z: 'Optional[Tuple[Vec, Mat]]' = None) -> 'Vec':\n    return _RET[0]\n",
+    "nested-forward-refs": "def f(x: 'Vec', y: Optional['Vec'] = None, z: Optional[Tuple['Vec', 'Mat']] = None) -> 'Vec':\n    return _RET[0]\n",
+    "string-in-string": "def f(x: 'Vec', y: \"Optional['Vec']\" = None, z: \"Optional[Tuple['Vec', 'Mat']]\" = None) -> 'Vec':\n    return _RET[0]\n",
+}
+
+
+def written_part():
+    """The same function with its annotations written in five ways (objects, every annotation a
+    string, forward references nested inside Optional[...] / Tuple[...], strings inside strings):
+    every argument list of a small complete product must be judged identically - raised iff violated,
+    stage, blamed parameter, listed bindings."""
+    common.bind_repo()
+    import sys
+    import types
+    import typing
+
+    import beartype
+    import typeguard
+
+    import jaxtyping
+    from jaxtyping import Float, jaxtyped
+    from ..adapter import Duck
+
+    tcs = {"typeguard": typeguard.typechecked, "beartype": beartype.beartype}
+    viols, n = [], 0
+    vec = {2: Duck((2,)), 3: Duck((3,))}
+    mats = {(2, 2): Duck((2, 2)), (2, 3): Duck((2, 3)), (3, 2): Duck((3, 2))}
+    arglists = []
+    for xs in (2, 3):
+        for ys in (None, 2, 3):
+            for zs in (None, (2, (2, 2)), (2, (3, 2)), (3, (2, 3)), (3, (3, 2))):
+                for rs in (2, 3):
+                    arglists.append((xs, ys, zs, rs))
+
+    def outcome(fn, retbox, a):
+        xs, ys, zs, rs = a
+        retbox[0] = vec[rs]
+        y = None if ys is None else vec[ys]
+        z = None if zs is None else (vec[zs[0]], mats[zs[1]])
+        try:
+            fn(vec[xs], y, z)
+            return ("returned",)
+        except jaxtyping.TypeCheckError as e:
+            stage, fnname, blamed, axes, structs = parse_message(str(e))
+            return ("TypeCheckError", stage, blamed, tuple(sorted(axes.items())))
+        except Exception as e:  # noqa: BLE001
+            return (type(e).__name__, str(e)[:80])
+
+    def expected(a):
+        xs, ys, zs, rs = a
+        binds = {"a": xs}
+        if ys is not None and ys != xs:
+            return ("TypeCheckError", "parameters", "y")
+        if zs is not None:
+            if zs[0] != xs or zs[1][0] != xs:
+                return ("TypeCheckError", "parameters", "z")
+        if rs != xs:
+            return ("TypeCheckError", "return value", None)
+        return ("returned",)
+
+    for tcn, tc in tcs.items():
+        results = {}
+        for style, src in WRITTEN_SRC.items():
+            mod = types.ModuleType(f"vf_c13_written_{style.replace('-', '_')}")
+            retbox = [None]
+            mod.__dict__.update(Vec=Float[Duck, "a"], Mat=Float[Duck, "a b"], Optional=typing.Optional, Tuple=typing.Tuple, _RET=retbox)
+            sys.modules[mod.__name__] = mod
+            try:
+                exec(compile(src, f"<{mod.__name__}>", "exec"), mod.__dict__)
+                try:
+                    fn = jaxtyped(typechecker=tc)(mod.f)
+                except Exception as e:  # noqa: BLE001
+                    viols.append(Violation(key=f"C13:written:{style}:{tcn}:decoration-raised", what=f"annotations written as {style}: jaxtyped(typechecker={tcn}) raised {type(e).__name__}: {e}"[:300], replay=dict(kind="written", style=style, tc=tcn)).to_json())
+                    continue
+                results[style] = [outcome(fn, retbox, a) for a in arglists]
+                n += len(arglists)
+            finally:
+                sys.modules.pop(mod.__name__, None)
+        for style, res in results.items():
+            for a, got in zip(arglists, res):
+                exp = expected(a)
+                ok = got[0] == exp[0] and (exp[0] == "returned" or (got[1] == exp[1] and (exp[2] is None or got[2] == exp[2])))
+                if not ok:
+                    viols.append(
+                        Violation(
+                            key=f"C13:written:{style}:{tcn}:{'not-raised' if got[0] == 'returned' else 'raised-' + str(got[0]) if exp[0] == 'returned' else 'wrong-report'}",
+                            what=f"annotations written as {style}, typechecker {tcn}, sizes (x, y, z, return) = {a}: got {got}, expected {exp}",
+                            replay=dict(kind="written", style=style, tc=tcn),
+                        ).to_json()
+                    )
+                    break
+    return n, viols
+
+
 def run(ctx):
     work = work_items(ctx.tier)
     jobs = [dict(work=[work[i] for i in idx]) for idx in common.shards(len(work), common.NCPU * 6, ctx.seed)]
@@ -370,7 +468,11 @@ def run(ctx):
     stats = common.merge_counts(o[0] for o in outs)
     viols = [Violation(**v) for o in outs for v in o[1]]
     samples = [s for o in outs for s in o[2]][:4]
+    wn, wv = written_part()
+    viols += [Violation(**v) for v in wv]
+    stats["calls"] += wn
     cov = dict(
+        written_forms=dict(styles=list(WRITTEN_SRC), calls=wn),
         evaluations=stats["calls"],
         distinct_nontrivial=stats["failing"],
         rule="every signature x shape tuple of the C02 generator (k<=3) plus the extended family {Union with failing first alternative, tuple, PyTree[...,'T'], 'c a', '*v a'}^k (k<=2, 3 in thorough) x values; "
@@ -386,6 +488,10 @@ def run(ctx):
 
 def replay(rep):
     common.bind_repo()
+    if rep["kind"] == "written":
+        n, v = written_part()
+        mine = [x for x in v if x["replay"]["style"] == rep["style"] and x["replay"]["tc"] == rep["tc"]]
+        return dict(violations=[(x["key"], x["what"]) for x in mine], violates=bool(mine))
     if rep["kind"] == "base":
         shp = sorted({tuple(x) for x in rep["shapes"]})
         item = ("base", rep["sig"], rep["ret"], shp, [tuple(rep["rshape"])], True)
